@@ -1,6 +1,68 @@
-(* C02 - placeholder: theorems are added with Proofs/VmProofs.v *)
-From Xeh Require Import Model.Prelude Model.Vm.
+(* C02 - reverse stepping exactly undoes forward stepping, and replay reproduces it.
+   Property theorems only. *)
+From Xeh Require Import Model.Prelude Model.Bits Model.Cell Model.Vm Model.Words Proofs.VmRev.
 
-Theorem C02_next_stopped : forall nf s, is_running s = false -> next nf s = ROk tt s.
-Proof. intros nf s H. unfold next. rewrite H. reflexivity. Qed.
-Check C02_next_stopped : forall nf s, is_running s = false -> next nf s = ROk tt s.
+(* one backward step undoes one forward step: everything except the instruction meter and
+   the captured output is restored, the reverse log included *)
+Theorem C02_rnext_undoes_step : forall fo s s',
+  recording s = true -> log_ok s -> wf_marks s -> not_resolve s ->
+  fetch_and_run (native_fn fo) s = ROk tt s' ->
+  exists s'', rnext s' = ROk tt s'' /\ eq_rev s'' s.
+Proof. exact rnext_undoes_step. Qed.
+Check C02_rnext_undoes_step : forall fo s s',
+  recording s = true -> log_ok s -> wf_marks s -> not_resolve s ->
+  fetch_and_run (native_fn fo) s = ROk tt s' ->
+  exists s'', rnext s' = ROk tt s'' /\ eq_rev s'' s.
+
+(* the hypotheses are invariants of forward stepping *)
+Theorem C02_step_invariants : forall fo s s',
+  recording s = true -> log_ok s -> wf_marks s ->
+  fetch_and_run (native_fn fo) s = ROk tt s' ->
+  recording s' = true /\ log_ok s' /\ wf_marks s'.
+Proof. exact step_invariants. Qed.
+Check C02_step_invariants : forall fo s s',
+  recording s = true -> log_ok s -> wf_marks s ->
+  fetch_and_run (native_fn fo) s = ROk tt s' ->
+  recording s' = true /\ log_ok s' /\ wf_marks s'.
+
+(* a failed step that logged partial changes is undone too.  The interpreter's "about to stop" flag,
+   which only the word `exit` sets (and `exit` always fails), is not part of the reversible state:
+   without the last hypothesis the statement is refuted by `exit` (failed_step_counterexample). *)
+Theorem C02_rnext_undoes_failed_step : forall fo s k p s',
+  recording s = true -> log_ok s -> wf_marks s -> not_resolve s ->
+  fetch_and_run (native_fn fo) s = RErr k p s' -> log_len s < log_len s' ->
+  stopping s' = stopping s ->
+  exists s'', rnext s' = ROk tt s'' /\ eq_rev s'' s.
+Proof. exact rnext_undoes_failed_step_weak. Qed.
+Check C02_rnext_undoes_failed_step : forall fo s k p s',
+  recording s = true -> log_ok s -> wf_marks s -> not_resolve s ->
+  fetch_and_run (native_fn fo) s = RErr k p s' -> log_len s < log_len s' ->
+  stopping s' = stopping s ->
+  exists s'', rnext s' = ROk tt s'' /\ eq_rev s'' s.
+
+(* every word other than `exit` satisfies that hypothesis *)
+Theorem C02_rnext_undoes_failed_step_noexit : forall fo s k p s',
+  recording s = true -> log_ok s -> wf_marks s -> not_resolve s ->
+  fetch_and_run (native_fn fo) s = RErr k p s' -> log_len s < log_len s' ->
+  nth_error (code s) (ip s) <> Some (ONative "exit") ->
+  exists s'', rnext s' = ROk tt s'' /\ eq_rev s'' s.
+Proof. exact rnext_undoes_failed_step_weak_noexit. Qed.
+Check C02_rnext_undoes_failed_step_noexit : forall fo s k p s',
+  recording s = true -> log_ok s -> wf_marks s -> not_resolve s ->
+  fetch_and_run (native_fn fo) s = RErr k p s' -> log_len s < log_len s' ->
+  nth_error (code s) (ip s) <> Some (ONative "exit") ->
+  exists s'', rnext s' = ROk tt s'' /\ eq_rev s'' s.
+
+(* k backward steps after n forward steps give the state after n-k forward steps,
+   for every k up to the start *)
+Theorem C02_rewind : forall fo n k s sn,
+  recording s = true -> log_ok s -> wf_marks s ->
+  (forall m sm, m < n -> steps (native_fn fo) m s = Some sm -> not_resolve sm) ->
+  steps (native_fn fo) n s = Some sn -> k <= n ->
+  exists s' sm, rnexts k sn = Some s' /\ steps (native_fn fo) (n - k) s = Some sm /\ eq_rev s' sm.
+Proof. exact rewind. Qed.
+Check C02_rewind : forall fo n k s sn,
+  recording s = true -> log_ok s -> wf_marks s ->
+  (forall m sm, m < n -> steps (native_fn fo) m s = Some sm -> not_resolve sm) ->
+  steps (native_fn fo) n s = Some sn -> k <= n ->
+  exists s' sm, rnexts k sn = Some s' /\ steps (native_fn fo) (n - k) s = Some sm /\ eq_rev s' sm.
